@@ -1,0 +1,5 @@
+//go:build !verif
+
+package operator
+
+func verifTimerCacheSize(requested uint64) uint64 { return requested }
